@@ -13,6 +13,16 @@ Tie to /repo (every run):
     on exactly representable (2^-16-quantised) phases; the real output is compared with
     phi + 2*pi*model_offsets - mean; `UnionFindPhase` is also driven directly with random
     (cyclic, inconsistent, repeated, self) edge lists.
+  * round 3 (model/C17_Model_Ext.v): the processing order of every recorded `_build_edges` call is
+    compared as a multiset with the model's `grid_pairs` (the hypothesis "any permutation of the
+    grid edges" of the theorems); the union-find STATE (parent, rank, offset) is compared at the
+    end of every driver run and after every single union for small direct runs; the real
+    `_pixel_reliability` values and the sortedness of the real order w.r.t. the model's keys
+    (`rel_list`, `code_sorted`, ties free) on exactly representable inputs; `_wrap_to_pi`
+    against `wrapP`; for the masked-embedding route the structure of the embedding (`embed`,
+    `positions`, `bf_branch`) is evaluated in the model and every stage of the real pipeline
+    (first-pass input = embedded angle * mask, second-pass input = mask * first output, result =
+    mask * last output read back at the bright-field pixels, number of passes) is compared.
 """
 from __future__ import annotations
 
@@ -27,11 +37,12 @@ import re
 from ..common import Ctx, cbool, cq, parse_coq_value
 
 PRE = """From QV.lib Require Import Prelude.
-From QV.model Require Import C17_Model.
+From QV.model Require Import C17_Model C17_Model_Ext.
 From Coq Require Import QArith.
 Local Close Scope Q_scope.
 Definition PI : Q := %s.
-""" % cq(Fraction(math.pi))
+Definition PI32 : Q := %s.
+""" % (cq(Fraction(math.pi)), cq(Fraction(float(np.float32(math.pi)))))
 
 TOL = 1e-4
 
@@ -39,8 +50,15 @@ TOL = 1e-4
 def ceval(ctx, name, exprs, shard):
     """coq_eval + parsing; scope annotations are stripped first (negative numerals are printed
     as `(-1)%Z`)"""
+    import os
+    t0 = os.times()
     raw = ctx.coq_eval(name, PRE, exprs, shard=shard, parse=False)
+    t1 = os.times()
+    CPU[name] = CPU.get(name, 0.0) + (t1.children_user + t1.children_system - t0.children_user - t0.children_system)
     return [parse_coq_value(re.sub(r"\s+", " ", re.sub(r"%\w+", "", v))) for v in raw]
+
+
+CPU = {}      # coqc CPU seconds per batch (wall time depends on the load of the machine)
 
 QDEN = 65536
 TWO_PI = 2 * math.pi
@@ -105,11 +123,46 @@ def has_hole(H, W, mask):
 # generators
 
 
-def gen_mask(r, H, W):
-    kind = r.choice(["none", "none", "full", "holes", "split", "split", "bernoulli", "blob"])
+def gen_mask(r, H, W, kind=None):
+    if kind is None:
+        kind = r.choice(["none", "none", "full", "holes", "split", "split", "bernoulli", "blob", "seam", "isolated"])
     if kind == "none":
         return kind, None
     m = np.ones((H, W), bool)
+    if kind == "seam":
+        # the mask hugs the border: its pieces touch each other only across the wrap-around seam
+        # (one component when wrap_around, several otherwise)
+        m[:] = False
+        a, b = r.randint(1, max(1, W // 3)), r.randint(1, max(1, W // 3))
+        how = r.choice(["cols", "rows", "both", "corner"])
+        if how in ("cols", "both"):
+            m[:, :a] = True
+            m[:, W - b:] = True
+        if how in ("rows", "both"):
+            a2, b2 = r.randint(1, max(1, H // 3)), r.randint(1, max(1, H // 3))
+            m[:a2, :] = True
+            m[H - b2:, :] = True
+        if how == "corner":
+            m[0, :a] = True
+            m[H - 1, :a] = True
+            m[:max(1, H // 3), 0] = True
+            m[:max(1, H // 3), W - 1] = True
+        if r.random() < 0.4:
+            m[r.randrange(H), r.randrange(W)] = False
+        return kind, m
+    if kind == "isolated":
+        # single-pixel components (no edge touches them) next to larger pieces
+        m[:] = False
+        for i in range(H):
+            for j in range(W):
+                if (i + j) % 2 == 0 and r.random() < 0.6:
+                    m[i, j] = True
+        if H >= 2 and W >= 2 and r.random() < 0.7:
+            r0, c0 = r.randrange(H - 1), r.randrange(W - 1)
+            m[r0:r0 + 2, c0:c0 + 2] = True
+        m[0, 0] = True
+        m[H - 1, W - 1] = r.random() < 0.5
+        return kind, m
     if kind == "holes":
         for _ in range(r.randint(1, 3)):
             h, w = r.randint(1, max(1, H // 3)), r.randint(1, max(1, W // 3))
@@ -178,18 +231,30 @@ def gen_field(r, H, W, periodic):
     return kind, f
 
 
-def scale_smooth(r, f, edges, smax=0.96):
-    """scale so that the largest difference across an edge is s*pi, s in [0.3, smax]; keep |phi|
-    moderate so float32 resolution stays far below the tolerance"""
+def scale_smooth(r, f, edges, smax=0.96, smin=0.3, flat_span=None):
+    """scale so that the largest difference across an edge is s*pi, s in [smin, smax]; keep |phi|
+    moderate so float32 resolution stays far below the tolerance.  flat_span: instead scale the
+    whole field to that total range (fields that never wrap)"""
     flat = f.flatten()
     m = max([abs(flat[a] - flat[b]) for a, b in edges] + [1e-12])
-    s = r.uniform(0.3, smax)
+    s = r.uniform(smin, smax)
     g = f * (s * math.pi / m) if m > 1e-9 else f
     amp = np.abs(g - g.mean()).max()
     if amp > 45:
         g = g * (45 / amp)
-    g = g + r.uniform(-3, 3)
-    return g.astype(np.float32).astype(np.float64)       # exactly representable generating field
+    if flat_span is not None:
+        rng = g.max() - g.min()
+        if rng > flat_span:
+            g = g * (flat_span / rng)
+        g = g - (g.max() + g.min()) / 2 + r.uniform(-0.2, 0.2)
+    else:
+        g = g + r.uniform(-3, 3)
+    g = g.astype(np.float32).astype(np.float64)            # exactly representable generating field
+    gf = g.flatten()
+    worst = max([abs(gf[a] - gf[b]) for a, b in edges] + [0.0])
+    if worst >= math.pi - 2e-3:                            # stay 2e-3 below the threshold after rounding
+        g = (g * ((math.pi - 4e-3) / worst)).astype(np.float32).astype(np.float64)
+    return g
 
 
 def wrap_input(r, phi, how):
@@ -205,10 +270,14 @@ def quantise(w32):
     return q.astype(np.float32)
 
 
-def make_case(r, H, W, route, mode):
-    """mode: smooth (wrapped smooth field) | already (smooth field passed unwrapped) | noise"""
-    wrap = r.random() < 0.5
-    mkind, mask = gen_mask(r, H, W)
+def make_case(r, H, W, route, mode, mask_kind=None, wrap=None, steep=False):
+    """mode: smooth (wrapped smooth field) | already (smooth field passed unwrapped) | noise |
+    offset2pi (wrapped smooth field shifted by integer multiples of 2*pi, one integer per
+    connected component: still a wrapped version of the field) | flat (bf route: a smooth field
+    whose wrapped version spans less than pi, so that the embedding returns it as is)"""
+    if wrap is None:
+        wrap = r.random() < 0.5
+    mkind, mask = gen_mask(r, H, W, mask_kind)
     if route == "bf":
         # bf route always has a mask (embedding); wrap_around default (True) or explicit False
         if mask is None:
@@ -219,6 +288,10 @@ def make_case(r, H, W, route, mode):
     if mode == "noise":
         fkind = "noise"
         phi = np.array([[r.uniform(-30, 30) for _ in range(W)] for _ in range(H)]).astype(np.float32).astype(np.float64)
+    elif mode == "flat":
+        phi = scale_smooth(r, f, edges, flat_span=r.uniform(0.2, 2.6))
+    elif steep:
+        phi = scale_smooth(r, f, edges, smin=0.97, smax=0.999)
     else:
         phi = scale_smooth(r, f, edges)
     how = r.choice(["mod", "angle"])
@@ -232,6 +305,18 @@ def make_case(r, H, W, route, mode):
         x = wrap_input(r, phi, how)
         if quant:
             x = quantise(x)
+    shift = None
+    if mode == "offset2pi":
+        n = H * W
+        mflat = np.ones(n, bool) if mask is None else mask.flatten()
+        lab = components(n, edges)
+        per = {root: r.randint(-3, 3) for root in sorted(set(lab))}
+        if r.random() < 0.4:
+            m0 = r.choice([-2, -1, 1, 2, 3])
+            per = {root: m0 for root in per}
+        shift = np.array([per[lab[i]] for i in range(n)]).reshape(H, W)
+        x = (x.astype(np.float64) + TWO_PI * shift).astype(np.float32)
+        quant = False
     garbage = False
     bf = None
     if route == "bf":
@@ -239,7 +324,7 @@ def make_case(r, H, W, route, mode):
         bf = mask.copy()
         for _ in range(r.randint(0, H * W // 4)):
             bf[r.randrange(H), r.randrange(W)] = True
-    if mask is not None and r.random() < 0.6:
+    if mask is not None and r.random() < 0.6 and mode != "flat":
         # pixels outside the mask carry arbitrary values: only the mask matters
         garbage = True
         g = np.array([[r.choice([r.uniform(-3.1, 3.1), r.uniform(-40, 40)]) for _ in range(W)] for _ in range(H)],
@@ -255,10 +340,19 @@ def make_case(r, H, W, route, mode):
         "phi": [float(v).hex() for v in phi.flatten()],
         "x": [float(v).hex() for v in x.flatten()],
         "method_kw": r.choice(["default", "explicit"]),
+        "steep": bool(steep),
     }
+    if route == "direct":
+        # how the tensors are handed over (the values are the same): dtype, memory layout,
+        # mask dtype, autograd flag
+        case["dtype"] = r.choice(["float32"] * 3 + ["float64"])
+        case["layout"] = r.choice(["contiguous"] * 3 + ["transposed", "strided"])
+        case["mask_dtype"] = r.choice(["bool"] * 3 + ["uint8", "int64", "float32"])
+        case["requires_grad"] = r.random() < 0.15
     if route == "bf":
         case["two_pass"] = r.random() < 0.6
-        case["wrap_kw"] = "explicit"  # wrap passed through **unwrap_kwargs
+        # wrap_around=True is also the default of unwrap_phase_2d_torch: pass it or leave it out
+        case["wrap_kw"] = "default" if (wrap and r.random() < 0.5) else "explicit"
         case["bf_mask"] = [int(v) for v in bf.flatten()]
     return case
 
@@ -276,20 +370,32 @@ def case_arrays(case):
 
 
 class Recorder:
+    """wraps _pixel_reliability / _build_edges / _final_offsets while the real driver runs and
+    records their data flow (nothing is changed)"""
+
     def __init__(self):
-        self.calls = []     # dicts: phi(list float), edges [(i1,i2,inc)], offs [float]
+        self.calls = []     # dicts: phi(list float), edges [(i1,i2,inc)], offs [float], rel, state
         self.problem = None
+        self.last_rel = None
 
     def __enter__(self):
         import quantem.core.utils.imaging_utils as iu
         self.iu = iu
         self.orig = {}
-        for nm in ("_build_edges", "_final_offsets"):
+        for nm in ("_build_edges", "_final_offsets", "_pixel_reliability"):
             if not hasattr(iu, nm):
                 self.problem = "imaging_utils.%s no longer exists" % nm
                 return self
             self.orig[nm] = getattr(iu, nm)
         rec = self
+
+        def pixel_reliability(phi, *a, **kw):
+            res = rec.orig["_pixel_reliability"](phi, *a, **kw)
+            try:
+                rec.last_rel = [float(v) for v in res.detach().double().flatten().tolist()]
+            except Exception as e:  # noqa
+                rec.problem = "unexpected _pixel_reliability result: %r" % (e,)
+            return res
 
         def build_edges(phi, *a, **kw):
             res = rec.orig["_build_edges"](phi, *a, **kw)
@@ -299,8 +405,9 @@ class Recorder:
                     "phi": [float(v) for v in phi.flatten().tolist()],
                     "edges": list(zip([int(v) for v in i1.tolist()], [int(v) for v in i2.tolist()],
                                       [int(v) for v in inc.tolist()])),
-                    "offs": None,
+                    "offs": None, "state": None, "rel": rec.last_rel,
                 })
+                rec.last_rel = None
             except Exception as e:  # noqa
                 rec.problem = "unexpected _build_edges result: %r" % (e,)
             return res
@@ -310,10 +417,12 @@ class Recorder:
             try:
                 if rec.calls and rec.calls[-1]["offs"] is None:
                     rec.calls[-1]["offs"] = [float(v) for v in res.flatten().tolist()]
+                    rec.calls[-1]["state"] = uf_state_of(uf)
             except Exception as e:  # noqa
                 rec.problem = "unexpected _final_offsets result: %r" % (e,)
             return res
 
+        iu._pixel_reliability = pixel_reliability
         iu._build_edges = build_edges
         iu._final_offsets = final_offsets
         return self
@@ -324,33 +433,68 @@ class Recorder:
         return False
 
 
+def uf_state_of(uf):
+    """(parent, rank, offset) of a UnionFindPhase as lists (offsets are integer-valued floats)"""
+    return ([int(v) for v in uf.parent.tolist()], [int(v) for v in uf.rank.tolist()],
+            [float(v) for v in uf.offset.tolist()])
+
+
+def hand_over(case, x, mask):
+    """the input tensors in the dtype / memory layout / mask dtype of the case (same values)"""
+    import torch
+    dt = {"float32": torch.float32, "float64": torch.float64}[case.get("dtype", "float32")]
+    xt = torch.from_numpy(x.copy()).to(dt)
+    mt = None if mask is None else torch.from_numpy(mask.copy())
+    lay = case.get("layout", "contiguous")
+    if lay == "transposed":
+        xt = xt.t().contiguous().t()
+        if mt is not None:
+            mt = mt.t().contiguous().t()
+    elif lay == "strided":
+        big = torch.full((2 * x.shape[0], 2 * x.shape[1]), 7.25, dtype=dt)
+        big[::2, ::2] = xt
+        xt = big[::2, ::2]
+    if mt is not None:
+        md = case.get("mask_dtype", "bool")
+        if md != "bool":
+            mt = mt.to({"uint8": torch.uint8, "int64": torch.int64, "float32": torch.float32}[md])
+    if case.get("requires_grad") and lay == "contiguous":
+        xt.requires_grad_(True)
+    return xt, mt
+
+
 def run_impl(case):
     import torch
     from quantem.core.utils.imaging_utils import unwrap_phase_2d_torch
 
     phi, x, mask = case_arrays(case)
     H, W = case["H"], case["W"]
-    xt = torch.from_numpy(x.copy())
-    mt = None if mask is None else torch.from_numpy(mask.copy())
     obs = {}
     with Recorder() as rec:
         if case["route"] == "direct":
+            xt, mt = hand_over(case, x, mask)
             kw = {} if case["method_kw"] == "default" else {"method": "reliability-sorting"}
             out = unwrap_phase_2d_torch(xt, mask=mt, wrap_around=case["wrap"], **kw)
             obs["out"] = out.detach().cpu().numpy().astype(np.float64).flatten().tolist()
+            obs["out_shape"] = list(out.shape)
         else:
             from quantem.diffractive_imaging.direct_ptycho_utils import unwrap_bf_overlap_phase_torch
+            xt = torch.from_numpy(x.copy())
+            mt = torch.from_numpy(mask.copy())
             bf = np.array(case["bf_mask"], bool).reshape(H, W)
             bft = torch.from_numpy(bf.copy())
             cplx = torch.polar(torch.ones(int(bf.sum()), dtype=torch.float32), xt[bft])
             mask_bf = mt[bft]
             kw = {} if case["method_kw"] == "default" else {"method": "reliability-sorting"}
-            res = unwrap_bf_overlap_phase_torch(cplx, mask_bf, bft, two_pass=case["two_pass"],
-                                                wrap_around=case["wrap"], **kw)
+            if case.get("wrap_kw", "explicit") == "explicit":
+                kw["wrap_around"] = case["wrap"]
+            res = unwrap_bf_overlap_phase_torch(cplx, mask_bf, bft, two_pass=case["two_pass"], **kw)
             full = np.full(H * W, np.nan)
             full[np.flatnonzero(bf.flatten())] = res.detach().cpu().numpy().astype(np.float64)
             obs["out"] = full.tolist()
+            obs["res"] = res.detach().cpu().numpy().astype(np.float64).tolist()
             obs["angle"] = torch.angle(cplx).numpy().astype(np.float64).tolist()
+            obs["mask_bf"] = [bool(v) for v in mask_bf.tolist()]
     obs["calls"] = rec.calls
     obs["rec_problem"] = rec.problem
     return obs
@@ -369,16 +513,18 @@ def oracle(case, obs):
     edges = edges_py(H, W, case["wrap"], None if mask is None else mflat)
     lab = components(n, edges)
     phif = phi.flatten()
+    if case["route"] == "direct" and obs.get("out_shape", [H, W]) != [H, W]:
+        return "output-shape", "output shape %s for an input of shape %s" % (obs["out_shape"], [H, W])
     if np.isnan(out[mflat]).any():
         return "nan-output", "output contains NaN inside the mask"
-    if case["mode"] in ("smooth", "already"):
+    if case["mode"] in ("smooth", "already", "offset2pi", "flat"):
         worst = 0.0
         for root in sorted(set(lab[i] for i in range(n) if mflat[i])):
             idx = [i for i in range(n) if lab[i] == root and mflat[i]]
             d = out[idx] - phif[idx]
             worst = max(worst, float(d.max() - d.min()))
         if worst > TOL:
-            key = "smooth-not-recovered" if case["mode"] == "smooth" else "unwrapped-input-changed"
+            key = "unwrapped-input-changed" if case["mode"] == "already" else "smooth-not-recovered"
             return key + ("-bf" if case["route"] == "bf" else ""), (
                 "output - generating field varies by %.3g inside one connected mask component "
                 "(H=%d W=%d wrap_around=%s mask=%s field=%s)" % (worst, H, W, case["wrap"], case["mask_kind"], case["field"]))
@@ -417,6 +563,11 @@ def grid_expr(case):
         QDEN, "; ".join(str(i) for i in ints), case["H"], case["W"], cbool(case["wrap"]), m)
 
 
+def mask_expr(case):
+    mask = case["mask"]
+    return "(fun _ => true)" if mask is None else "(mask_of [%s])" % "; ".join(cbool(bool(b)) for b in mask)
+
+
 def case_expr(case, obs):
     n = case["H"] * case["W"]
     parts = [edges_expr(n, c["edges"]) for c in obs["calls"][:2]]
@@ -424,6 +575,48 @@ def case_expr(case, obs):
         parts.append("(@None (list Z))")
     g = grid_expr(case) if case["quant"] else "(@nil (Z * Z * Z))"
     return "(%s, %s, %s)" % (parts[0], parts[1], g)
+
+
+def state_expr(n, edges):
+    return "uf_state %d (el [%s]%%Z)" % (n, "; ".join("(%d, %d, %d)" % e for e in edges))
+
+
+def case_expr2(case, obs):
+    """(the model's grid edges, union-find state after call 0, after call 1)"""
+    n = case["H"] * case["W"]
+    parts = [state_expr(n, c["edges"]) for c in obs["calls"][:2]]
+    while len(parts) < 2:
+        parts.append("(@None (list Z * list Z * list Z))")
+    return "(zpairs (grid_pairs %d %d %s %s), %s, %s)" % (
+        case["H"], case["W"], cbool(case["wrap"]), mask_expr(case), parts[0], parts[1])
+
+
+REL_MAX = 100      # pixels: the reliability / sort comparison runs on quantised cases up to this size
+
+
+def rel_wanted(case, obs):
+    return bool(case["quant"] and case["route"] == "direct" and case["H"] * case["W"] <= REL_MAX
+                and obs["calls"] and not obs["rec_problem"])
+
+
+def rel_expr(case):
+    phi, x, mask = case_arrays(case)
+    ints = [int(round(float(v) * QDEN)) for v in x.flatten()]
+    ph = "(phase_of %d [%s]%%Z)" % (QDEN, "; ".join(str(i) for i in ints))
+    return ("(map qpair (rel_list PI32 %d %d %s), "
+            "map (fun ke => (qpair (fst ke), (Z.of_nat (fst (snd ke)), Z.of_nat (snd (snd ke))))) "
+            "(code_sorted PI32 %d %d %s %s %s))") % (
+        case["H"], case["W"], ph, case["H"], case["W"], cbool(case["wrap"]), mask_expr(case), ph)
+
+
+def bf_expr(case, obs):
+    bf = [bool(v) for v in case["bf_mask"]]
+    k = sum(bf)
+    bfl = "[%s]" % "; ".join(cbool(b) for b in bf)
+    ang = "[%s]" % "; ".join(cq(Fraction(float(v))) for v in obs["angle"])
+    mbf = "[%s]" % "; ".join(cbool(b) for b in obs["mask_bf"])
+    return ("(embed %s [%s]%%Z (-1)%%Z, embed %s %s false, bf_branch PI32 %s %s %s, map Z.of_nat (positions %s))"
+            % (bfl, "; ".join(str(i) for i in range(k)), bfl, mbf, bfl, ang, mbf, bfl))
 
 
 def compare_case(case, obs, val):
@@ -492,6 +685,172 @@ def compare_case(case, obs, val):
     return bad, near
 
 
+def compare_case2(case, obs, val):
+    """processing order = permutation of the model's grid edges (every recorded call); union-find
+    state (parent, rank, offset) after the last union of every call, exactly"""
+    bad = []
+    if obs["rec_problem"]:
+        return bad
+    model_pairs = sorted((int(a), int(b)) for a, b in val[0])
+    for ci, call in enumerate(obs["calls"][:2]):
+        impl_pairs = sorted((a, b) for a, b, _ in call["edges"])
+        if impl_pairs != model_pairs:
+            only_m = [e for e in model_pairs if e not in set(impl_pairs)][:4]
+            only_i = [e for e in impl_pairs if e not in set(model_pairs)][:4]
+            bad.append(("edge-order-correspondence",
+                        "the edges fed to the union-find (call %d: %d edges) are not a permutation of the grid edges of "
+                        "the mask (%d edges): only in the model %s, only in the implementation %s"
+                        % (ci, len(impl_pairs), len(model_pairs), only_m, only_i)))
+        mv = val[1 + ci]
+        st = call["state"]
+        if st is None:
+            continue
+        if not (isinstance(mv, tuple) and mv[0] == "Some"):
+            bad.append(("uf-correspondence", "model union-find state is None (fuel exhausted)"))
+            continue
+        mpar, mrank, moff = mv[1]
+        if [int(v) for v in mpar] != st[0] or [int(v) for v in mrank] != st[1] or [float(v) for v in moff] != st[2]:
+            which = "parent" if [int(v) for v in mpar] != st[0] else "rank" if [int(v) for v in mrank] != st[1] else "offset"
+            bad.append(("uf-correspondence",
+                        "UnionFindPhase.%s after the last union of call %d differs from the model's state" % (which, ci)))
+    return bad
+
+
+def nb_py(H, W, i, dr, dc):
+    r, c = divmod(i, W)
+    return ((r + dr) % H) * W + (c + dc) % W
+
+
+def compare_rel(case, obs, val, stats):
+    """_pixel_reliability vs the model's rel_list; the implementation's order vs the model's keys"""
+    bad = []
+    H, W = case["H"], case["W"]
+    n = H * W
+    phi, x, mask = case_arrays(case)
+    mflat = np.ones(n, bool) if mask is None else mask.flatten()
+    xf = x.astype(np.float64).flatten()
+    call = obs["calls"][0]
+    rel = call["rel"]
+    if rel is None or len(rel) != n:
+        return [("reliability-correspondence", "_pixel_reliability was not called before _build_edges or returned %s values"
+                 % (None if rel is None else len(rel)))]
+    model_rel = [Fraction(int(a), int(b)) for a, b in val[0]]
+    # pixels where one of the eight wrapped differences sits within 1e-4 of the wrap discontinuity
+    unsure = np.zeros(n, bool)
+    for i in range(n):
+        for dr, dc in ((0, -1), (0, 1), (-1, 0), (1, 0), (-1, -1), (1, 1), (-1, 1), (1, -1)):
+            d = abs(xf[nb_py(H, W, i, dr, dc)] - xf[i])
+            t = (d + math.pi) % TWO_PI
+            if t < 1e-4 or t > TWO_PI - 1e-4:
+                unsure[i] = True
+    for i in range(n):
+        if mask is not None and not mflat[i]:
+            if rel[i] != float("inf"):
+                bad.append(("reliability-correspondence", "pixel %d is outside the mask but its reliability is %r, not inf" % (i, rel[i])))
+                break
+            continue
+        if unsure[i]:
+            stats["rel_unsure"] += 1
+            continue
+        m = float(model_rel[i])
+        stats["rel_compared"] += 1
+        if not abs(rel[i] - m) <= 2e-3 + 1e-4 * abs(m):
+            bad.append(("reliability-correspondence",
+                        "_pixel_reliability at pixel %d (row %d, col %d) is %.6f, the model's wrapped second differences give %.6f"
+                        % (i, i // W, i % W, rel[i], m)))
+            break
+    # the sort: along the implementation's order the model's keys must ascend (ties and near-ties free)
+    key = {}
+    keys_sorted = []
+    for ka, kb, (a, b) in val[1]:
+        k = Fraction(int(ka), int(kb))
+        key[(int(a), int(b))] = k
+        keys_sorted.append(k)
+    if any(keys_sorted[i] > keys_sorted[i + 1] for i in range(len(keys_sorted) - 1)):
+        bad.append(("reliability-correspondence", "the model's own sorted keys do not ascend"))
+    ties = sum(1 for i in range(len(keys_sorted) - 1) if keys_sorted[i] == keys_sorted[i + 1])
+    stats["sort_ties"] += ties
+    touched_unsure = any(unsure[a] or unsure[b] for a, b, _ in call["edges"])
+    if not touched_unsure and not bad:
+        seq = []
+        for a, b, _ in call["edges"]:
+            if (a, b) not in key:
+                seq = None
+                break
+            seq.append(float(key[(a, b)]))
+        if seq is not None:
+            stats["sort_compared"] += 1
+            for i in range(len(seq) - 1):
+                if seq[i] > seq[i + 1] + 5e-3 + 2e-4 * abs(seq[i]):
+                    bad.append(("reliability-correspondence",
+                                "the edges are not processed in ascending order of rel[i1] + rel[i2]: position %d has key %.5f, "
+                                "position %d has key %.5f (model keys)" % (i, seq[i], i + 1, seq[i + 1])))
+                    break
+    elif touched_unsure:
+        stats["sort_skipped_unsure"] += 1
+    return bad
+
+
+def predicted_output(call):
+    xin = np.array(call["phi"], np.float64)
+    pred = xin + TWO_PI * np.array([round(o) for o in call["offs"]], float)
+    return pred - pred.mean()
+
+
+def compare_bf(case, obs, val, stats):
+    """the embedding pipeline stage by stage; structure (which sample sits where, the embedded
+    mask, the branch, the read-back positions) comes from the model"""
+    bad = []
+    if obs["rec_problem"]:
+        return bad
+    H, W = case["H"], case["W"]
+    n = H * W
+    idx = [int(v) for v in val[0]]
+    mg = [bool(v) for v in val[1]]
+    branch = int(val[2])
+    pos = [int(v) for v in val[3]]
+    ang = np.array(obs["angle"], np.float64)
+    res = np.array(obs["res"], np.float64)
+    calls = obs["calls"]
+    if len(idx) != n or len(mg) != n or len(pos) != len(ang):
+        return [("bf-correspondence", "model embedding has the wrong size")]
+    pg = np.array([ang[i] if i >= 0 else 0.0 for i in idx])
+    mgf = np.array(mg, float)
+    span = float(pg.max() - pg.min()) if n else 0.0
+    if abs(span - math.pi) < 1e-5:
+        stats["bf_span_near_pi"] += 1
+        return bad
+    want_calls = 0 if branch < 2 else (2 if case["two_pass"] else 1)
+    stats["bf_branch_%d" % branch] += 1
+    if len(calls) != want_calls:
+        return [("bf-correspondence", "the embedding route ran %d unwrapping passes, the model takes branch %d (%d passes); "
+                 "span of the embedded grid %.6f, two_pass=%s" % (len(calls), branch, want_calls, span, case["two_pass"]))]
+    if branch < 2:
+        if not np.array_equal(res, ang):
+            bad.append(("bf-correspondence", "no unwrapping branch: the result is not the input angle"))
+        return bad
+    in1 = np.array(calls[0]["phi"], np.float64)
+    if not np.array_equal(in1, pg * mgf):
+        i = int(np.flatnonzero(in1 != pg * mgf)[0])
+        bad.append(("bf-correspondence", "first-pass input at grid pixel %d is %r, embedded angle * mask is %r"
+                    % (i, in1[i], (pg * mgf)[i])))
+        return bad
+    if any(c["offs"] is None for c in calls):
+        return bad
+    g = predicted_output(calls[0]) * mgf
+    if case["two_pass"]:
+        in2 = np.array(calls[1]["phi"], np.float64)
+        dev = float(np.abs(in2 - g).max())
+        if dev > TOL:
+            bad.append(("bf-correspondence", "second-pass input differs from mask * (first-pass output) by %.3g" % dev))
+            return bad
+        g = predicted_output(calls[1]) * mgf
+    dev = float(np.abs(res - g[pos]).max()) if len(pos) else 0.0
+    if dev > TOL:
+        bad.append(("bf-correspondence", "result differs from mask * (last output) read back at the bright-field pixels by %.3g" % dev))
+    return bad
+
+
 # ------------------------------------------------------------------------------------------
 
 
@@ -514,11 +873,26 @@ def gen_cases(ctx: Ctx):
             H, W = r.randint(3, min(hi, 12)), r.randint(3, min(hi, 12))
         else:
             H, W = r.randint(2, hi), r.randint(2, hi)
-        mode = r.choice(["smooth"] * 6 + ["already"] * 2 + ["noise"] * 2)
-        cases.append(make_case(r, H, W, "direct", mode))
+        mode = r.choice(["smooth"] * 6 + ["already"] * 2 + ["noise"] * 2 + ["offset2pi"] * 2)
+        cases.append(make_case(r, H, W, "direct", mode, steep=(mode != "noise" and r.random() < 0.2)))
+    # thin grids (1 x N, N x 1, 2 x N, N x 2): self edges and duplicate edges under wrap_around
+    for k in range(ctx.budget(24, 80)):
+        N = r.randint(1, min(hi, 14))
+        H, W = r.choice([(1, N), (N, 1), (2, N), (N, 2)])
+        mode = r.choice(["smooth"] * 4 + ["already", "noise", "offset2pi"])
+        cases.append(make_case(r, H, W, "direct", mode, wrap=(k % 2 == 0),
+                               mask_kind=r.choice([None, "seam", "bernoulli", "isolated", "none"])))
+    # masks that touch the wrap-around seam / single-pixel components, with and without wrap_around
+    for k in range(ctx.budget(30, 100)):
+        H, W = r.randint(3, min(hi, 12)), r.randint(3, min(hi, 12))
+        mode = r.choice(["smooth"] * 5 + ["already", "offset2pi", "noise"])
+        cases.append(make_case(r, H, W, r.choice(["direct", "direct", "bf"]) if mode in ("smooth", "noise") else "direct",
+                               mode, wrap=(k % 3 != 0), mask_kind=r.choice(["seam", "seam", "isolated"]),
+                               steep=(mode != "noise" and r.random() < 0.3)))
     for k in range(ctx.budget(70, 250)):
         H, W = r.randint(3, min(hi, 14)), r.randint(3, min(hi, 14))
-        cases.append(make_case(r, H, W, "bf", r.choice(["smooth"] * 5 + ["noise"])))
+        cases.append(make_case(r, H, W, "bf", r.choice(["smooth"] * 5 + ["noise", "flat"]),
+                               steep=(r.random() < 0.15)))
     return cases
 
 
@@ -558,8 +932,27 @@ def check_grid(ctx: Ctx):
         ctx.dist("wraps_present=%s" % wraps)
         ctx.dist("edge_increments_compared=%s" % case["quant"])
         ctx.dist("garbage_outside_mask=%s" % case.get("garbage_outside_mask", False))
+        if case["route"] == "direct":
+            ctx.dist("dtype=%s" % case.get("dtype", "float32"))
+            ctx.dist("layout=%s" % case.get("layout", "contiguous"))
+            ctx.dist("mask_dtype=%s" % (case.get("mask_dtype", "bool") if mask is not None else "no-mask"))
+        else:
+            ctx.dist("bf/wrap_kw=%s" % case.get("wrap_kw", "explicit"))
+            ctx.dist("bf/passes=%d" % len(obs["calls"]))
+        ctx.dist("steep(0.97..0.999*pi)=%s" % case.get("steep", False))
+        sizes = {}
+        for v in (lab[i] for i in range(n) if mflat[i]):
+            sizes[v] = sizes.get(v, 0) + 1
+        ctx.dist("single_pixel_component=%s" % any(v == 1 for v in sizes.values()))
+        ctx.dist("thin_grid=%s" % (min(case["H"], case["W"]) <= 2))
+        if case["wrap"] and mask is not None:
+            seam = any((a // case["W"] == b // case["W"] and abs(a - b) == case["W"] - 1 and case["W"] > 2)
+                       or (a % case["W"] == b % case["W"] and abs(a - b) == (case["H"] - 1) * case["W"] and case["H"] > 2)
+                       for a, b in edges)
+            ctx.dist("mask_uses_seam_edges=%s" % seam)
         ctx.count((case["route"], case["mode"], case["H"], case["W"], case["wrap"], tuple(case["x"]),
-                   None if case["mask"] is None else tuple(case["mask"])),
+                   None if case["mask"] is None else tuple(case["mask"]), case.get("dtype"), case.get("layout"),
+                   case.get("mask_dtype")),
                   nontrivial=(wraps or case["mode"] == "already") and len(edges) > 0)
         bad = oracle(case, obs)
         if bad:
@@ -582,6 +975,32 @@ def check_grid(ctx: Ctx):
                 case["H"], case["W"], case["wrap"], case["mask_kind"], case["field"], case["mode"], case["route"]),
                 {"kind": "grid", "case": case}, found_input=oracle(case, obs) is not None)
     ctx.cov["near_threshold_pairs_excluded"] = near_total
+    # round 3: order = permutation of the grid edges, union-find state, reliability + sort, embedding
+    from collections import Counter
+    stats = Counter()
+    vals2 = ceval(ctx, "grid2", [case_expr2(c, o) for c, o in zip(cases, obs_all)], 6 if big else 12)
+    rel_idx = [i for i, (c, o) in enumerate(zip(cases, obs_all)) if rel_wanted(c, o)]
+    rel_idx = rel_idx[:ctx.budget(70, 250)]
+    vrel = ceval(ctx, "rel", [rel_expr(cases[i]) for i in rel_idx], 3) if rel_idx else []
+    bf_idx = [i for i, c in enumerate(cases) if c["route"] == "bf"]
+    vbf = ceval(ctx, "bf", [bf_expr(cases[i], obs_all[i]) for i in bf_idx], 12) if bf_idx else []
+    extra = [[] for _ in cases]
+    for i, v in enumerate(vals2):
+        extra[i] += compare_case2(cases[i], obs_all[i], v)
+    for i, v in zip(rel_idx, vrel):
+        extra[i] += compare_rel(cases[i], obs_all[i], v, stats)
+        stats["rel_cases"] += 1
+    for i, v in zip(bf_idx, vbf):
+        extra[i] += compare_bf(cases[i], obs_all[i], v, stats)
+        stats["bf_cases"] += 1
+    for case, obs, mism in zip(cases, obs_all, extra):
+        for key, what in mism:
+            nd += 1
+            ctx.cov["disagreements_checked"] += 1
+            ctx.violation(key, what + "  [case H=%d W=%d wrap_around=%s mask=%s field=%s mode=%s route=%s]" % (
+                case["H"], case["W"], case["wrap"], case["mask_kind"], case["field"], case["mode"], case["route"]),
+                {"kind": "grid", "case": case}, found_input=oracle(case, obs) is not None)
+    ctx.cov["round3_correspondence"] = dict(stats)
     mid = cases[len(cases) // 3]
     ctx.sample({"kind": "grid", "H": mid["H"], "W": mid["W"], "wrap_around": mid["wrap"], "mask": mid["mask"],
                 "field": mid["field"], "mode": mid["mode"], "route": mid["route"],
@@ -589,17 +1008,48 @@ def check_grid(ctx: Ctx):
     ctx.log("grid: %d cases, %d correspondence mismatches, %d near-threshold pairs excluded" % (len(cases), nd, near_total))
 
 
-def run_uf_direct(n, edges):
+def run_uf_direct(n, edges, trace=None):
     import quantem.core.utils.imaging_utils as iu
     uf = iu.UnionFindPhase(n)
     for a, b, inc in edges:
         uf.union(a, b, inc)
-    return [float(v) for v in iu._final_offsets(uf).tolist()]
+        if trace is not None:
+            trace.append(uf_state_of(uf))
+    return [float(v) for v in iu._final_offsets(uf).tolist()], uf_state_of(uf)
+
+
+def state_eq(mv, st):
+    """model value Some (parent, rank, offset) vs implementation state"""
+    if not (isinstance(mv, tuple) and mv[0] == "Some"):
+        return False
+    mpar, mrank, moff = mv[1]
+    return [int(v) for v in mpar] == st[0] and [int(v) for v in mrank] == st[1] and [float(v) for v in moff] == st[2]
+
+
+def uf_direct_expr(n, edges, small):
+    es = "(el [%s]%%Z)" % "; ".join("(%d, %d, %d)" % e for e in edges)
+    tr = "uf_trace %d %s" % (n, es) if small else "(@nil (option (list Z * list Z * list Z)))"
+    return "(uf_offsets %d %s, uf_state %d %s, %s)" % (n, es, n, es, tr)
+
+
+def compare_uf_direct(n, edges, offs, st, trace, v):
+    if not (isinstance(v[0], tuple) and v[0][0] == "Some" and [float(z) for z in v[0][1]] == offs):
+        return "final offsets: impl %s model %s" % (offs, v[0])
+    if not state_eq(v[1], st):
+        return "final (parent, rank, offset): impl %s model %s" % (st, v[1])
+    if trace is not None:
+        if len(v[2]) != len(trace):
+            return "trace length: impl %d model %d" % (len(trace), len(v[2]))
+        for k, (mv, t) in enumerate(zip(v[2], trace)):
+            if not state_eq(mv, t):
+                return "state after union %d %s: impl %s model %s" % (k, edges[k], t, mv)
+    return None
 
 
 def check_uf_direct(ctx: Ctx):
     """UnionFindPhase driven directly with arbitrary edge lists (cycles whose increments do not
-    add up, repeated edges, self edges): offsets vs the model, exactly"""
+    add up, repeated edges, self edges): final offsets, final (parent, rank, offset) and, for
+    n <= 12, the state after EVERY union vs the model, exactly"""
     r = ctx.rng
     cases = []
     for _ in range(ctx.budget(150, 800)):
@@ -609,24 +1059,70 @@ def check_uf_direct(ctx: Ctx):
         cases.append((n, edges))
     exprs, impl = [], []
     for n, edges in cases:
-        impl.append(run_uf_direct(n, edges))
-        exprs.append(edges_expr(n, edges))
+        small = n <= 12
+        trace = [] if small else None
+        offs, st = run_uf_direct(n, edges, trace)
+        impl.append((offs, st, trace))
+        exprs.append(uf_direct_expr(n, edges, small))
     vals = ceval(ctx, "ufdirect", exprs, 20)
     nd = 0
-    for (n, edges), offs, v in zip(cases, impl, vals):
+    nsteps = 0
+    for (n, edges), (offs, st, trace), v in zip(cases, impl, vals):
         ctx.count(("uf", n, tuple(edges)), nontrivial=len(edges) >= n)
         ctx.dist("ufdirect/edges_vs_n=%s" % ("<n" if len(edges) < n else ">=n"))
+        ctx.dist("ufdirect/per_step_trace=%s" % (trace is not None))
         ctx.cov["traces_validated_against_impl"] += 1
-        ok = isinstance(v, tuple) and v[0] == "Some" and [float(z) for z in v[1]] == offs
-        if not ok:
+        nsteps += len(trace) if trace is not None else 0
+        why = compare_uf_direct(n, edges, offs, st, trace, v)
+        if why:
             nd += 1
             ctx.cov["disagreements_checked"] += 1
             ctx.violation("uf-correspondence",
-                          "UnionFindPhase/_final_offsets and the model disagree on n=%d edges=%s: impl %s model %s"
-                          % (n, edges, offs, v), {"kind": "uf", "n": n, "edges": [list(e) for e in edges]},
+                          "UnionFindPhase/_final_offsets and the model disagree on n=%d edges=%s: %s"
+                          % (n, edges, why), {"kind": "uf", "n": n, "edges": [list(e) for e in edges]},
                           found_input=False)
-    ctx.sample({"kind": "uf", "n": cases[0][0], "edges": [list(e) for e in cases[0][1]], "impl_offsets": impl[0]})
-    ctx.log("uf direct: %d cases, %d mismatches" % (len(cases), nd))
+    ctx.cov["uf_states_compared_per_step"] = nsteps
+    ctx.sample({"kind": "uf", "n": cases[0][0], "edges": [list(e) for e in cases[0][1]], "impl_offsets": impl[0][0]})
+    ctx.log("uf direct: %d cases, %d single-union states compared, %d mismatches" % (len(cases), nsteps, nd))
+
+
+def wrap_direct_cases(r, k):
+    xs = [0.0, math.pi / 2, -math.pi / 2, 3.0, -3.0, 6.0, -6.0, 9.5, -9.5]
+    while len(xs) < k:
+        xs.append(r.choice([r.uniform(-7, 7), r.uniform(-70, 70)]))
+    return [round(v * QDEN) / QDEN for v in xs]
+
+
+def run_wrap_direct(xs):
+    import torch
+    import quantem.core.utils.imaging_utils as iu
+    t = torch.tensor(xs, dtype=torch.float32)
+    return [float(v) for v in iu._wrap_to_pi(t).tolist()], [float(v) for v in iu._wrap_to_pi(t.double()).tolist()]
+
+
+def check_wrap_direct(ctx: Ctx):
+    """_wrap_to_pi (used inside _pixel_reliability) vs the model's wrapP on exactly representable
+    arguments, float32 and float64; arguments within 1e-4 of the discontinuity are skipped"""
+    xs = wrap_direct_cases(ctx.rng, ctx.budget(120, 400))
+    w32, w64 = run_wrap_direct(xs)
+    ints = [int(round(v * QDEN)) for v in xs]
+    v = ceval(ctx, "wrapdirect", ["map qpair (map (wrapP PI32) (qlist %d [%s]%%Z))" % (QDEN, "; ".join(map(str, ints)))], 1)[0]
+    nd = skipped = 0
+    for x, a32, a64, (num, den) in zip(xs, w32, w64, v):
+        m = float(Fraction(int(num), int(den)))
+        t = (x + math.pi) % TWO_PI
+        ctx.count(("wrap", x), nontrivial=abs(x) > math.pi)
+        if t < 1e-4 or t > TWO_PI - 1e-4:
+            skipped += 1
+            continue
+        ctx.cov["traces_validated_against_impl"] += 1
+        if abs(a32 - m) > 2e-5 + 1e-6 * abs(x) or abs(a64 - m) > 2e-5 + 1e-6 * abs(x):
+            nd += 1
+            ctx.cov["disagreements_checked"] += 1
+            ctx.violation("wrap-correspondence", "_wrap_to_pi(%r) = %r (float32) / %r (float64), the model's wrapP gives %r"
+                          % (x, a32, a64, m), {"kind": "wrap", "x": x}, found_input=False)
+    ctx.dist("wrapdirect/compared", len(xs) - skipped)
+    ctx.log("wrap direct: %d values, %d skipped near the discontinuity, %d mismatches" % (len(xs), skipped, nd))
 
 
 BIG_N = 2 ** 24 + 8     # one row with more than 2**24 pixels; the mask keeps the last 6
@@ -769,8 +1265,11 @@ def run(ctx: Ctx):
     ctx.proofs_or_violation()
     check_grid(ctx)
     check_uf_direct(ctx)
+    check_wrap_direct(ctx)
     check_dispatch(ctx)
     check_big_index(ctx)
+    ctx.cov["coqc_cpu_seconds"] = {k: round(v, 1) for k, v in CPU.items()}
+    ctx.log("coqc cpu seconds per batch: %s" % ctx.cov["coqc_cpu_seconds"])
 
 
 def replay(ctx: Ctx, path):
@@ -785,6 +1284,13 @@ def replay(ctx: Ctx, path):
         bad = oracle(case, obs)
         v = ceval(ctx, "replay", [case_expr(case, obs)], 1)[0]
         mism, near = compare_case(case, obs, v)
+        from collections import Counter
+        stats = Counter()
+        mism = list(mism) + compare_case2(case, obs, ceval(ctx, "replay2", [case_expr2(case, obs)], 1)[0])
+        if rel_wanted(case, obs):
+            mism += compare_rel(case, obs, ceval(ctx, "replay3", [rel_expr(case)], 1)[0], stats)
+        if case["route"] == "bf":
+            mism += compare_bf(case, obs, ceval(ctx, "replay4", [bf_expr(case, obs)], 1)[0], stats)
         phi, x, mask = case_arrays(case)
         print("case: H=%d W=%d wrap_around=%s route=%s mode=%s field=%s mask=%s" % (
             case["H"], case["W"], case["wrap"], case["route"], case["mode"], case["field"], case["mask_kind"]))
@@ -806,10 +1312,17 @@ def replay(ctx: Ctx, path):
         return 1 if (bad or not obs["edges_ok"]) else 0
     if rp.get("kind") == "uf":
         n, edges = rp["n"], [tuple(e) for e in rp["edges"]]
-        offs = run_uf_direct(n, edges)
-        v = ceval(ctx, "replay", [edges_expr(n, edges)], 1)[0]
-        print("impl:", offs, "model:", v)
-        ok = isinstance(v, tuple) and v[0] == "Some" and [float(z) for z in v[1]] == offs
-        return 0 if ok else 1
+        trace = []
+        offs, st = run_uf_direct(n, edges, trace)
+        v = ceval(ctx, "replay", [uf_direct_expr(n, edges, True)], 1)[0]
+        why = compare_uf_direct(n, edges, offs, st, trace, v)
+        print("impl offsets:", offs, "state:", st)
+        print("model:", v[0], v[1])
+        print("correspondence:", why or "agrees")
+        return 1 if why else 0
+    if rp.get("kind") == "wrap":
+        w32, w64 = run_wrap_direct([rp["x"]])
+        print("_wrap_to_pi(%r) = %r / %r" % (rp["x"], w32[0], w64[0]))
+        return 0
     print("replay of kind %r: re-run ./check C17" % rp.get("kind"))
     return 0
